@@ -1,0 +1,522 @@
+//go:build verif
+
+// Verification hooks (build tag "verif"): an event sink for observation points,
+// read-only projections of unexported state, positioning helpers for sequence
+// numbers / clock, and a buffer-pool sanitizer. Nothing in here is compiled
+// into a normal build (see verif_off.go).
+package kcp
+
+import (
+	"container/heap"
+	"fmt"
+	"sort"
+	"sync"
+	"sync/atomic"
+	"time"
+	"unsafe"
+)
+
+const verifEnabled = true
+
+// ---------------------------------------------------------------------------
+// event sink
+// ---------------------------------------------------------------------------
+
+// VerifEvent is one observation emitted at a hook point.
+type VerifEvent struct {
+	Seq  uint64 // global sequence number (atomic, assigned at emission)
+	Kind string
+	Obj  int64 // small stable id of the object (session, scheduler, ...), 0 if none
+	A    int64
+	B    int64
+	C    int64
+}
+
+var (
+	verifSink   atomic.Value // func(VerifEvent)
+	verifSeq    atomic.Uint64
+	verifObjIDs sync.Map // pointer -> int64
+	verifObjSeq atomic.Int64
+	verifWorker atomic.Int64
+)
+
+// VerifSetSink installs (or with nil removes) the event sink.
+func VerifSetSink(f func(VerifEvent)) {
+	if f == nil {
+		verifSink.Store((func(VerifEvent))(nil))
+		return
+	}
+	verifSink.Store(f)
+}
+
+// VerifObjID returns the small id used in events for the given object.
+func VerifObjID(obj any) int64 {
+	if obj == nil {
+		return 0
+	}
+	if v, ok := verifObjIDs.Load(obj); ok {
+		return v.(int64)
+	}
+	id := verifObjSeq.Add(1)
+	v, _ := verifObjIDs.LoadOrStore(obj, id)
+	return v.(int64)
+}
+
+func verifEv(kind string, obj any, a, b, c int64) {
+	f, _ := verifSink.Load().(func(VerifEvent))
+	if f == nil {
+		return
+	}
+	f(VerifEvent{Seq: verifSeq.Add(1), Kind: kind, Obj: VerifObjID(obj), A: a, B: b, C: c})
+}
+
+func verifWorkerID() int64 { return verifWorker.Add(1) }
+
+func verifB(b bool) int64 {
+	if b {
+		return 1
+	}
+	return 0
+}
+
+// ---------------------------------------------------------------------------
+// clock / sequence positioning
+// ---------------------------------------------------------------------------
+
+// VerifSetClockMs makes currentMs() return ms at this instant (and advance
+// from there with the monotonic / bubble clock).
+func VerifSetClockMs(ms uint32) {
+	refTime = time.Now().Add(-time.Duration(ms) * time.Millisecond)
+}
+
+// VerifCurrentMs exposes currentMs().
+func VerifCurrentMs() uint32 { return currentMs() }
+
+// VerifSetSeq positions a fresh KCP at the given send / receive sequence numbers.
+func (kcp *KCP) VerifSetSeq(snd, rcv uint32) {
+	kcp.snd_una, kcp.snd_nxt, kcp.rcv_nxt = snd, snd, rcv
+}
+
+// VerifSetStream switches stream mode of a raw KCP.
+func (kcp *KCP) VerifSetStream(on bool) {
+	if on {
+		kcp.stream = 1
+	} else {
+		kcp.stream = 0
+	}
+}
+
+// VerifFlush is the session-style drive: flush and return the suggested interval.
+func (kcp *KCP) VerifFlush(ackOnly bool) uint32 {
+	if ackOnly {
+		return kcp.flush(IKCP_FLUSH_ACKONLY)
+	}
+	return kcp.flush(IKCP_FLUSH_FULL)
+}
+
+// ---------------------------------------------------------------------------
+// KCP projection
+// ---------------------------------------------------------------------------
+
+type VerifSeg struct {
+	Sn, Frg, Len, Acked, Xmit, Rto, Resendts, Fastack, Ts, Una, Wnd uint32
+}
+
+type VerifKCPState struct {
+	Conv, Mtu, Mss, State                       uint32
+	SndUna, SndNxt, RcvNxt                      uint32
+	Ssthresh                                    uint32
+	RxRttvar, RxSrtt                            int32
+	RxRto, RxMinrto                             uint32
+	SndWnd, RcvWnd, RmtWnd, Cwnd, Incr          uint32
+	Probe, TsProbe, ProbeWait                   uint32
+	Interval, TsFlush, Nodelay, Updated         uint32
+	DeadLink                                    uint32
+	Fastresend, Nocwnd, Stream                  int32
+	SndQueue, SndBuf, RcvBuf, RcvQueue          []VerifSeg
+	AckList                                     [][2]uint32
+	RcvBufMarks                                 int
+	SndQueueCap, SndBufCap, RcvQueueCap, BufLen int
+}
+
+func verifSeg(s *segment) VerifSeg {
+	return VerifSeg{Sn: s.sn, Frg: uint32(s.frg), Len: uint32(len(s.data)), Acked: s.acked, Xmit: s.xmit,
+		Rto: s.rto, Resendts: s.resendts, Fastack: s.fastack, Ts: s.ts, Una: s.una, Wnd: uint32(s.wnd)}
+}
+
+// VerifState returns a deep projection of the protocol state (caller holds whatever lock protects kcp).
+func (kcp *KCP) VerifState() VerifKCPState {
+	st := VerifKCPState{
+		Conv: kcp.conv, Mtu: kcp.mtu, Mss: kcp.mss, State: kcp.state,
+		SndUna: kcp.snd_una, SndNxt: kcp.snd_nxt, RcvNxt: kcp.rcv_nxt,
+		Ssthresh: kcp.ssthresh, RxRttvar: kcp.rx_rttvar, RxSrtt: kcp.rx_srtt,
+		RxRto: kcp.rx_rto, RxMinrto: kcp.rx_minrto,
+		SndWnd: kcp.snd_wnd, RcvWnd: kcp.rcv_wnd, RmtWnd: kcp.rmt_wnd, Cwnd: kcp.cwnd, Incr: kcp.incr,
+		Probe: kcp.probe, TsProbe: kcp.ts_probe, ProbeWait: kcp.probe_wait,
+		Interval: kcp.interval, TsFlush: kcp.ts_flush, Nodelay: kcp.nodelay, Updated: kcp.updated,
+		DeadLink:   kcp.dead_link,
+		Fastresend: kcp.fastresend, Nocwnd: kcp.nocwnd, Stream: kcp.stream,
+		RcvBufMarks: len(kcp.rcv_buf.marks),
+		SndQueueCap: len(kcp.snd_queue.elements), SndBufCap: len(kcp.snd_buf.elements),
+		RcvQueueCap: len(kcp.rcv_queue.elements), BufLen: len(kcp.buffer),
+	}
+	for s := range kcp.snd_queue.ForEach {
+		st.SndQueue = append(st.SndQueue, verifSeg(s))
+	}
+	for s := range kcp.snd_buf.ForEach {
+		st.SndBuf = append(st.SndBuf, verifSeg(s))
+	}
+	for s := range kcp.rcv_queue.ForEach {
+		st.RcvQueue = append(st.RcvQueue, verifSeg(s))
+	}
+	for i := range kcp.rcv_buf.segments {
+		st.RcvBuf = append(st.RcvBuf, verifSeg(&kcp.rcv_buf.segments[i]))
+	}
+	base := kcp.rcv_nxt
+	sort.Slice(st.RcvBuf, func(i, j int) bool {
+		return _itimediff(st.RcvBuf[i].Sn, base) < _itimediff(st.RcvBuf[j].Sn, base)
+	})
+	for _, a := range kcp.acklist {
+		st.AckList = append(st.AckList, [2]uint32{a.sn, a.ts})
+	}
+	return st
+}
+
+// VerifRcvBufTop returns the sequence number on top of the receive heap (ok=false if empty).
+func (kcp *KCP) VerifRcvBufTop() (uint32, bool) {
+	if kcp.rcv_buf.Len() == 0 {
+		return 0, false
+	}
+	return kcp.rcv_buf.segments[0].sn, true
+}
+
+// ---------------------------------------------------------------------------
+// ring buffer layout
+// ---------------------------------------------------------------------------
+
+// VerifLayout returns head, tail and the slot count of the ring.
+func (r *RingBuffer[T]) VerifLayout() (head, tail, slots int) {
+	return r.head, r.tail, len(r.elements)
+}
+
+// VerifSlots returns a copy of the raw slot array.
+func (r *RingBuffer[T]) VerifSlots() []T {
+	out := make([]T, len(r.elements))
+	copy(out, r.elements)
+	return out
+}
+
+// VerifNewRingBufferAt builds a ring with exactly `slots` slots (no minimum applied)
+// whose head and tail start at `head` (empty ring, arbitrary offset).
+func VerifNewRingBufferAt[T any](slots, head int) *RingBuffer[T] {
+	return &RingBuffer[T]{head: head, tail: head, elements: make([]T, slots)}
+}
+
+// ---------------------------------------------------------------------------
+// FEC codec access
+// ---------------------------------------------------------------------------
+
+type VerifFECEncoder struct{ e *fecEncoder }
+
+func VerifNewFECEncoder(dataShards, parityShards, offset int) *VerifFECEncoder {
+	e := newFECEncoder(dataShards, parityShards, offset)
+	if e == nil {
+		return nil
+	}
+	return &VerifFECEncoder{e}
+}
+func (v *VerifFECEncoder) Encode(b []byte, rto uint32) [][]byte { return v.e.encode(b, rto) }
+func (v *VerifFECEncoder) EncodeOOB(b []byte)                   { v.e.encodeOOB(b) }
+func (v *VerifFECEncoder) SetNext(n uint32)                     { v.e.next = n }
+func (v *VerifFECEncoder) Next() uint32                         { return v.e.next }
+func (v *VerifFECEncoder) Paws() uint32                         { return v.e.paws }
+func (v *VerifFECEncoder) ShardCount() int                      { return v.e.shardCount }
+func (v *VerifFECEncoder) MaxSize() int                         { return v.e.maxSize }
+
+type VerifFECDecoder struct{ d *fecDecoder }
+
+func VerifNewFECDecoder(dataShards, parityShards int) *VerifFECDecoder {
+	d := newFECDecoder(dataShards, parityShards)
+	if d == nil {
+		return nil
+	}
+	return &VerifFECDecoder{d}
+}
+
+// Decode feeds one packet (starting at the FEC header). The returned slices are
+// pool buffers; the caller recycles them with VerifPoolPut like kcpInput does.
+func (v *VerifFECDecoder) Decode(pkt []byte) [][]byte { return v.d.decode(fecPacket(pkt)) }
+
+type VerifFECDecState struct {
+	DataShards, ParityShards int
+	ShouldTune               bool
+	NewestShardId            uint32
+	Paws                     uint32
+	Sets                     map[uint32][]uint32 // shardId -> sorted seqids held
+	TuneCount                int
+	TuneHead, TuneTail       int
+}
+
+func verifDecState(d *fecDecoder) VerifFECDecState {
+	st := VerifFECDecState{DataShards: d.dataShards, ParityShards: d.parityShards, ShouldTune: d.shouldTune,
+		NewestShardId: d.newestShardId, Paws: d.paws, Sets: map[uint32][]uint32{},
+		TuneCount: d.autoTune.count, TuneHead: d.autoTune.head, TuneTail: d.autoTune.tail}
+	for id, h := range d.shardSet {
+		var ids []uint32
+		for _, p := range h.elements {
+			ids = append(ids, p.seqid())
+		}
+		sort.Slice(ids, func(i, j int) bool { return ids[i] < ids[j] })
+		st.Sets[id] = ids
+	}
+	return st
+}
+
+func (v *VerifFECDecoder) State() VerifFECDecState { return verifDecState(v.d) }
+
+// VerifPoolPutBuf recycles a buffer through the package pool (as kcpInput does for recovered shards).
+func VerifPoolPutBuf(b []byte) error { return defaultBufferPool.Put(b) }
+
+// VerifPoolGetBuf takes a buffer from the package pool.
+func VerifPoolGetBuf() []byte { return defaultBufferPool.Get() }
+
+// VerifAutoTune exposes the period detector.
+type VerifAutoTune struct{ t autoTune }
+
+func (v *VerifAutoTune) Sample(bit bool, seq uint32) { v.t.Sample(bit, seq) }
+func (v *VerifAutoTune) FindPeriod(bit bool) int     { return v.t.FindPeriod(bit) }
+
+// ---------------------------------------------------------------------------
+// session / listener projections
+// ---------------------------------------------------------------------------
+
+// VerifKCPState returns the protocol projection of a session under its mutex.
+func (s *UDPSession) VerifKCPState() VerifKCPState {
+	s.mu.Lock()
+	defer s.mu.Unlock()
+	return s.kcp.VerifState()
+}
+
+// VerifSetSeq positions the session's sequence numbers (before any traffic).
+func (s *UDPSession) VerifSetSeq(snd, rcv uint32) {
+	s.mu.Lock()
+	s.kcp.VerifSetSeq(snd, rcv)
+	s.mu.Unlock()
+}
+
+// VerifSetFECNext positions the session's FEC encoder (before any traffic).
+func (s *UDPSession) VerifSetFECNext(n uint32) {
+	s.mu.Lock()
+	if s.fecEncoder != nil {
+		s.fecEncoder.next = n
+	}
+	s.mu.Unlock()
+}
+
+// VerifFECState returns decoder state (ok=false without a decoder).
+func (s *UDPSession) VerifFECState() (VerifFECDecState, bool) {
+	s.mu.Lock()
+	defer s.mu.Unlock()
+	if s.fecDecoder == nil {
+		return VerifFECDecState{}, false
+	}
+	return verifDecState(s.fecDecoder), true
+}
+
+// VerifDigest is a deep, deterministic rendering of everything an incoming
+// datagram may influence: protocol state, decoder state (including the
+// auto-tune sample ring), stream carry-over, pending wake-up tokens, closed flag.
+func (s *UDPSession) VerifDigest() string {
+	s.mu.Lock()
+	defer s.mu.Unlock()
+	k := s.kcp.VerifState()
+	out := fmt.Sprintf("kcp=%+v|bufptr=%d|rtok=%d|wtok=%d|closed=%v|pp=%d", k, len(s.bufptr), len(s.chReadEvent), len(s.chWriteEvent), s.isClosed(), len(s.chPostProcessing))
+	if s.fecDecoder != nil {
+		d := s.fecDecoder
+		st := verifDecState(d)
+		ids := make([]uint32, 0, len(st.Sets))
+		for id := range st.Sets {
+			ids = append(ids, id)
+		}
+		sort.Slice(ids, func(i, j int) bool { return ids[i] < ids[j] })
+		out += fmt.Sprintf("|fec=%d/%d tune=%v newest=%d paws=%d", st.DataShards, st.ParityShards, st.ShouldTune, st.NewestShardId, st.Paws)
+		for _, id := range ids {
+			out += fmt.Sprintf(" %d:%v", id, st.Sets[id])
+		}
+		out += fmt.Sprintf("|at=%d,%d,%d", d.autoTune.head, d.autoTune.tail, d.autoTune.count)
+		for i := 0; i < d.autoTune.count; i++ {
+			p := d.autoTune.pulses[(d.autoTune.head+i)%maxAutoTuneSamples]
+			out += fmt.Sprintf(" %v:%d", p.bit, p.seq)
+		}
+	}
+	return out
+}
+
+// VerifHeaderSize returns the per-datagram overhead in front of the KCP segments.
+func (s *UDPSession) VerifHeaderSize() int { return s.headerSize }
+
+// VerifSessions lists the listener's session table as addr -> conv.
+func (l *Listener) VerifSessions() map[string]uint32 {
+	l.sessionLock.RLock()
+	defer l.sessionLock.RUnlock()
+	out := make(map[string]uint32, len(l.sessions))
+	for k, s := range l.sessions {
+		out[k] = s.kcp.conv
+	}
+	return out
+}
+
+// VerifAcceptLen returns the number of sessions waiting in the accept backlog.
+func (l *Listener) VerifAcceptLen() int { return len(l.chAccepts) }
+
+// VerifAcceptCap returns the accept backlog capacity.
+func (l *Listener) VerifAcceptCap() int { return cap(l.chAccepts) }
+
+// VerifSetAcceptBacklog replaces the accept queue by one of the given capacity (before any traffic).
+func (l *Listener) VerifSetAcceptBacklog(n int) { l.chAccepts = make(chan *UDPSession, n) }
+
+// ---------------------------------------------------------------------------
+// buffer pool sanitizer
+// ---------------------------------------------------------------------------
+
+const verifPoison = 0xA5
+
+type verifPoolAnomaly struct {
+	Kind string // "double-put", "poison-damaged"
+	ID   int64
+	Off  int
+}
+
+type verifPool struct {
+	mu         sync.Mutex
+	on         bool
+	trace      bool
+	qmax       int
+	state      map[*byte]int64 // >0: owned (acquisition id), <0: free (last acquisition id negated), absent: unknown
+	quarantine [][]byte
+	nextID     int64
+	gets, puts int64
+	anomalies  []verifPoolAnomaly
+}
+
+var verifPoolSt verifPool
+
+// VerifPoolSanitize switches the pool sanitizer on/off. While on, the package
+// pool is replaced by a tracked free list: every Put poisons the buffer and parks
+// it in a FIFO quarantine of the given length; the poison is verified when the
+// buffer leaves quarantine (or at VerifPoolReport). trace=true additionally emits
+// pool.get / pool.put events (A = acquisition id).
+func VerifPoolSanitize(on bool, quarantine int, trace bool) {
+	p := &verifPoolSt
+	p.mu.Lock()
+	defer p.mu.Unlock()
+	p.on, p.trace, p.qmax = on, trace, quarantine
+	p.state = map[*byte]int64{}
+	p.quarantine = nil
+	p.gets, p.puts = 0, 0
+	p.anomalies = nil
+}
+
+// VerifPoolReport verifies the poison of everything still quarantined and returns
+// counters plus the anomalies seen since VerifPoolSanitize.
+func VerifPoolReport() (gets, puts int64, outstanding int, anomalies []string) {
+	p := &verifPoolSt
+	p.mu.Lock()
+	defer p.mu.Unlock()
+	for _, b := range p.quarantine {
+		p.checkPoison(b)
+	}
+	for _, v := range p.state {
+		if v > 0 {
+			outstanding++
+		}
+	}
+	for _, a := range p.anomalies {
+		anomalies = append(anomalies, fmt.Sprintf("%s id=%d off=%d", a.Kind, a.ID, a.Off))
+	}
+	return p.gets, p.puts, outstanding, anomalies
+}
+
+func (p *verifPool) checkPoison(b []byte) {
+	b = b[:cap(b)]
+	for i, c := range b {
+		if c != verifPoison {
+			id := -p.state[&b[0]]
+			p.anomalies = append(p.anomalies, verifPoolAnomaly{"poison-damaged", id, i})
+			return
+		}
+	}
+}
+
+func verifPoolGet(bp *bufferPool) []byte {
+	p := &verifPoolSt
+	p.mu.Lock()
+	if !p.on || bp != defaultBufferPool {
+		p.mu.Unlock()
+		return bp.xmitBuf.Get().([]byte)
+	}
+	var b []byte
+	if len(p.quarantine) > p.qmax {
+		b = p.quarantine[0]
+		p.quarantine[0] = nil
+		p.quarantine = p.quarantine[1:]
+		p.checkPoison(b)
+	} else {
+		b = make([]byte, mtuLimit)
+		for i := range b {
+			b[i] = verifPoison
+		}
+	}
+	p.nextID++
+	id := p.nextID
+	p.state[&b[0]] = id
+	p.gets++
+	tr := p.trace
+	p.mu.Unlock()
+	if tr {
+		verifEv("pool.get", nil, id, 0, 0)
+	}
+	return b
+}
+
+func verifPoolPut(bp *bufferPool, buf []byte) error {
+	p := &verifPoolSt
+	p.mu.Lock()
+	if !p.on || bp != defaultBufferPool {
+		p.mu.Unlock()
+		bp.xmitBuf.Put(buf[:cap(buf)])
+		return nil
+	}
+	b := buf[:cap(buf)]
+	key := (*byte)(unsafe.Pointer(&b[0]))
+	id, known := p.state[key]
+	switch {
+	case known && id < 0:
+		p.anomalies = append(p.anomalies, verifPoolAnomaly{"double-put", -id, 0})
+		tr := p.trace
+		p.mu.Unlock()
+		if tr {
+			verifEv("pool.put", nil, -id, 1, 0)
+		}
+		return nil
+	case !known:
+		// a buffer that was never handed out by Get while the sanitizer was on
+		// (e.g. acquired before it was switched on): adopt it.
+		p.nextID++
+		id = p.nextID
+	}
+	for i := range b {
+		b[i] = verifPoison
+	}
+	p.state[key] = -id
+	p.quarantine = append(p.quarantine, b)
+	p.puts++
+	tr := p.trace
+	p.mu.Unlock()
+	if tr {
+		verifEv("pool.put", nil, id, 0, 0)
+	}
+	return nil
+}
+
+var _ = heap.Init
